@@ -83,6 +83,7 @@ def findings_table() -> str:
 
 
 def waves_table() -> str:
+    waves = ("w1", "w2", "w3")
     per: dict[str, dict[str, list[int]]] = {}
     unreported = []
     other_only = []
@@ -92,24 +93,30 @@ def waves_table() -> str:
             continue
         m = json.loads(mp.read_text())
         prop, n = d.name.split("-")
-        wave = "w1" if int(n) <= 3 else "w2"
+        wave = waves[min((int(n) - 1) // 3, 2)]
         cb = [c["property"] for c in m.get("caught_by", [])]
-        row = per.setdefault(prop, {"w1": [0, 0, 0], "w2": [0, 0, 0]})
+        arr = m.get("caught_by_at_arrival")
+        row = per.setdefault(prop, {w: [0, 0, 0, 0, 0] for w in waves})
         row[wave][0] += 1
         row[wave][1] += 1 if prop in cb else 0
         row[wave][2] += 1 if cb else 0
+        row[wave][3] += 1 if arr is not None and prop in arr else 0
+        row[wave][4] += 1 if arr else 0
         if not cb:
             unreported.append(f"* **{d.name}** — {(m.get('title') or '')[:200]}")
         elif prop not in cb:
             other_only.append(f"{d.name} ({', '.join(cb)})")
-    rows = ["| property | wave 1: seeds / by own check / by any check | wave 2: seeds / by own check / by any check |", "|---|---|---|"]
-    tot = {"w1": [0, 0, 0], "w2": [0, 0, 0]}
+    rows = ["| property | round 1 (now: own / any of 3) | round 2 at arrival (own / any) | round 2 now (own / any) | round 3 at arrival (own / any) | round 3 now (own / any) |",
+            "|---|---|---|---|---|---|"]
+    tot = {w: [0, 0, 0, 0, 0] for w in waves}
     for prop, r in sorted(per.items()):
-        rows.append(f"| {prop} | {r['w1'][0]} / {r['w1'][1]} / {r['w1'][2]} | {r['w2'][0]} / {r['w2'][1]} / {r['w2'][2]} |")
-        for w in ("w1", "w2"):
-            for i in range(3):
+        rows.append(f"| {prop} | {r['w1'][1]} / {r['w1'][2]} | {r['w2'][3]} / {r['w2'][4]} | {r['w2'][1]} / {r['w2'][2]} | "
+                    f"{r['w3'][3]} / {r['w3'][4]} | {r['w3'][1]} / {r['w3'][2]} |")
+        for w in waves:
+            for i in range(5):
                 tot[w][i] += r[w][i]
-    rows.append(f"| **all** | **{tot['w1'][0]} / {tot['w1'][1]} / {tot['w1'][2]}** | **{tot['w2'][0]} / {tot['w2'][1]} / {tot['w2'][2]}** |")
+    rows.append(f"| **all** | **{tot['w1'][1]} / {tot['w1'][2]}** of {tot['w1'][0]} | **{tot['w2'][3]} / {tot['w2'][4]}** of {tot['w2'][0]} | "
+                f"**{tot['w2'][1]} / {tot['w2'][2]}** | **{tot['w3'][3]} / {tot['w3'][4]}** of {tot['w3'][0]} | **{tot['w3'][1]} / {tot['w3'][2]}** |")
     out = "\n".join(rows)
     out += "\n\nReported only by the check of another property: " + ("; ".join(other_only) if other_only else "none") + "."
     out += "\n\nNot reported by any check:\n\n" + ("\n".join(unreported) if unreported else "(none)")
